@@ -287,6 +287,44 @@ Proof.
 Qed.
 Print Assumptions g_diff_time_eq.
 
+(* _diff_str: t1 a str / bytes (the dispatch of _diff), t2 anything but an Enum member (members are unwrapped or of t1's type) *)
+Lemma contains_nl : forall s, contains_sub [10%N] s = has_nl s.
+Proof.
+  induction s as [|c s IH]; [reflexivity|].
+  cbn [contains_sub is_prefix]. unfold has_nl, has_char in *. cbn [existsb]. rewrite IH.
+  destruct s; rewrite ?andb_true_r; reflexivity.
+Qed.
+
+Lemma py_eqv_ss : forall x y, py_eqv (AStr x) (AStr y) = pystr_eqb x y.
+Proof. intros. unfold py_eqv, py_ne. cbn [is_nan orb py_eq qv num_of]. apply negb_involutive. Qed.
+Lemma py_eqv_bb : forall x y, py_eqv (ABytes x) (ABytes y) = pystr_eqb x y.
+Proof. intros. unfold py_eqv, py_ne. cbn [is_nan orb py_eq qv num_of]. apply negb_involutive. Qed.
+Lemma py_eqv_sb : forall x y, py_eqv (AStr x) (ABytes y) = false.
+Proof. reflexivity. Qed.
+Lemma py_eqv_bs : forall x y, py_eqv (ABytes x) (AStr y) = false.
+Proof. reflexivity. Qed.
+
+Ltac strsimp :=
+  cbn [lv_t1 lv_t2 lv_p1 lv_p2 lv_diff py_lower bind py_type_eq atom_ty ty_eqb py_eqv py_ne is_nan py_eq qv num_of orb negb andb
+       py_isinstance py_try_decode_ascii py_enum_value py_str_in py_unified_diff str_like str_content with_content is_bytes
+       py_nonempty app dt_py_eq].
+
+Theorem g_diff_str_eq : forall udiff F a b p1 p2,
+  str_like (atom_ty a) = true -> is_enum b = false ->
+  g_diff_str F udiff (mkLv a b p1 p2 None) = strD udiff F a b p1 p2.
+Proof.
+  intros udiff F a b p1 p2 Ha Hb.
+  unfold g_diff_str, strD, diff_strF, lowif, rep_atoms, py_report_result, lv_set_t1, lv_set_t2, lv_set_diff.
+  destruct a as [| ? | ? | ? ? | s | s | ? ? | ? | ? ? | ? ? ? | ? | ? | ? ? ? ?]; try discriminate Ha;
+  destruct b as [| ? | ? | ? ? | t | t | ? ? | ? | ? ? | ? ? ? | ? | ? | ? ? ? ?]; try discriminate Hb;
+  destruct (o_case F); strsimp; rewrite ?contains_nl, ?is_ascii_lower, ?py_eqv_ss, ?py_eqv_bb, ?py_eqv_sb, ?py_eqv_bs, ?negb_involutive, ?andb_true_r, ?orb_false_r; try reflexivity.
+  all: repeat (match goal with
+               | |- context [py_nonempty ?e] => destruct e; strsimp; rewrite ?contains_nl
+               | |- context [if ?c then _ else _] => destruct c eqn:?; strsimp; rewrite ?contains_nl, ?is_ascii_lower, ?py_eqv_ss, ?py_eqv_bb, ?py_eqv_sb, ?py_eqv_bs, ?negb_involutive, ?andb_true_r, ?orb_false_r
+               end); try reflexivity; try (cbn in *; congruence); try (rewrite ?andb_false_r in *; discriminate).
+Qed.
+Print Assumptions g_diff_str_eq.
+
 (* ---------------------------------------------------------------------- *)
 (* transfer: theorems of Properties/C11.v about the GENERATED definitions   *)
 (* ---------------------------------------------------------------------- *)
@@ -321,6 +359,19 @@ Corollary g_C11x_number_against_itself : forall F rtc a p1 p2,
   is_numeric a = true -> g_diff_numbers F (mkLv a a p1 p2 None) rtc = Ok [].
 Proof. intros. rewrite g_diff_numbers_decision_eq. apply numD_refl; assumption. Qed.
 Print Assumptions g_C11x_number_against_itself.
+
+(* clause 1 at a string leaf (YProofsAtoms.diff_strF_rel, the string case of C11x_leaf_alt_ok): strings that agree up to what
+   ignore_string_case / ignore_string_type_changes ignore are not reported by the code's _diff_str, and it does not raise *)
+Corollary g_C11x_strings_alt_ok : forall udiff F a b p1 p2,
+  str_rel F a b = true -> g_diff_str F udiff (mkLv a b p1 p2 None) = Ok [].
+Proof.
+  intros udiff F a b p1 p2 H. pose proof H as H0. unfold str_rel in H0.
+  apply andb_true_iff in H0. destruct H0 as [H0 _]. apply andb_true_iff in H0. destruct H0 as [H0 _].
+  apply andb_true_iff in H0. destruct H0 as [Ha Hb].
+  rewrite g_diff_str_eq; [|exact Ha|destruct b; cbn in Hb; try discriminate; reflexivity].
+  unfold strD. rewrite Hb. rewrite (diff_strF_rel udiff F a b p1 p2 H). reflexivity.
+Qed.
+Print Assumptions g_C11x_strings_alt_ok.
 
 (* C11x_equal_numbers_render_alike about the code's number_to_string *)
 Corollary g_C11x_equal_numbers_render_alike : forall F d a b,
